@@ -571,7 +571,7 @@ class ThreadWrapper(Unit):
 
     def bounded(self, rng, tier):
         rp = replay_wrapper()
-        return dict(name='C14.thread-wrapper.concrete', evaluations=rp['n'], bound='3 x 2 x 2 concrete behaviours of _run/_handle_exit/_handle_exception',
+        return dict(name='C14.thread-wrapper.concrete', evaluations=rp['n'], bound='3 x 3 x 2 x 2 concrete behaviours of the predecessor/_run/_handle_exit/_handle_exception',
                     failures=[dict(call=rp['call'], observed=rp['observed'], witness='thread-wrapper')] if rp['confirmed'] else [])
 
 
@@ -579,16 +579,24 @@ def replay_wrapper():
     """NetworkingThread.run on a real thread object (run() called directly) with concrete stub behaviours."""
     import threading
     n = 0
-    for run_k in range(3):
+    for prev_k in range(3):                  # no predecessor / predecessor still alive / predecessor already finished
+      for run_k in range(3):
         for exit_k in range(2):
             for he_k in range(2):
                 n += 1
                 conn = types.SimpleNamespace(networking_thread='T', new_networking_thread=None, **{lock_name(): threading.RLock()})
-                t = NetworkingThread(conn)
+                joined = []
+                prev = None
+                if prev_k:
+                    prev = types.SimpleNamespace(is_alive=lambda: prev_k == 1 and not joined, join=lambda: joined.append(1))
+                t = NetworkingThread(conn, previous=prev) if prev_k else NetworkingThread(conn)
+                if prev_k:
+                    conn.new_networking_thread = t
                 seen = []
                 boom, boom2 = E1('run'), E2('exit')
 
                 def _run():
+                    seen.append('run:%s' % ('after-join' if joined or prev_k != 1 else 'before-join'))
                     if run_k == 1:
                         raise boom
                     if run_k == 2:
@@ -616,6 +624,10 @@ def replay_wrapper():
                 bad = None
                 if conn.networking_thread is not None:
                     bad = 'networking_thread slot not cleared'
+                elif conn.new_networking_thread is not None:
+                    bad = 'the successor slot still holds the finished thread: every later connect()/status() is refused as "still active"'
+                elif 'run:before-join' in seen:
+                    bad = '_run started while the predecessor was still alive'
                 elif exp is not None and he != [('he', exp, exp, True)]:
                     bad = '_handle_exception calls %r (interrupt must be set before the call)' % (he,)
                 elif exp is None and he:
@@ -623,8 +635,9 @@ def replay_wrapper():
                 elif exp is not None and he_k and out is not exp:
                     bad = 're-raise did not propagate'
                 if bad:
-                    return dict(confirmed=True, n=n, call='NetworkingThread.run with _run kind %d, exit kind %d' % (run_k, exit_k), observed=bad)
-    return dict(confirmed=False, n=n, call='NetworkingThread.run over 12 stub behaviours', observed='conforms')
+                    return dict(confirmed=True, n=n, call='NetworkingThread.run with %s, _run kind %d, exit kind %d'
+                                % (('no predecessor', 'a live predecessor', 'a finished predecessor')[prev_k], run_k, exit_k), observed=bad)
+    return dict(confirmed=False, n=n, call='NetworkingThread.run over 36 stub behaviours', observed='conforms')
 
 
 def c15_units():
